@@ -48,7 +48,13 @@ impl Scenario for Lifecycle {
         "seeded lifecycle runs (archive × codec × sync/async writer and reader × transfer/pending policies); distinct = distinct serialized cases; non-trivial = at least one tile and a non-plain schedule on writer or reader disk".into()
     }
     fn generate(&self, rng: &mut Rng, _tier: Tier, _run: u64) -> Value {
-        let size = if rng.chance(self.window_pct) { SizeClass::Window } else { draw_size(rng, self.huge_pct) };
+        let size = if rng.chance(self.window_pct) {
+            SizeClass::Window
+        } else if self.prop == "C10" && rng.below(400) == 0 {
+            SizeClass::LongRun
+        } else {
+            draw_size(rng, self.huge_pct)
+        };
         let ic = draw_ic(rng, size == SizeClass::Huge || size == SizeClass::Window);
         let a = draw_archive(rng, size, ic);
         let wface = Face::draw(rng);
